@@ -359,6 +359,35 @@ func ruleVersionNegotiation(c *Ctx) {
 		}
 		sortN = g.NodeOf(call)
 	}
+	if sortN == nil {
+		// sort.Slice(list, func(i, j int) bool { return list[i] > list[j] }) / slices.SortFunc with a descending comparator
+		for _, call := range f.Calls() {
+			nm := p.CalleeName(f, call)
+			if (nm == "sort.Slice" || nm == "sort.SliceStable" || nm == "slices.SortFunc" || nm == "slices.SortStableFunc") && len(call.Args) == 2 && identObj(info, call.Args[0]) == sv {
+				if fl, ok := ast.Unparen(call.Args[1]).(*ast.FuncLit); ok && descendingComparator(info, fl, sv, nm) {
+					sortN = g.NodeOf(call)
+				}
+			}
+		}
+	}
+	if sortN == nil {
+		// slices.Sort(list) followed by slices.Reverse(list)
+		var s1, s2 *Node
+		for _, call := range f.Calls() {
+			nm := p.CalleeName(f, call)
+			if len(call.Args) == 1 && identObj(info, call.Args[0]) == sv {
+				if nm == "slices.Sort" || nm == "sort.Ints" {
+					s1 = g.NodeOf(call)
+				}
+				if nm == "slices.Reverse" {
+					s2 = g.NodeOf(call)
+				}
+			}
+		}
+		if s1 != nil && s2 != nil && g.Dominates(s1, s2) {
+			sortN = s2
+		}
+	}
 	if sortN == nil || rangeN == nil {
 		c.R.Violate("R-NEG", p.Pos(outer), f.Name, "served versions sorted descending", "the list of served versions is not sorted in descending order before the first-match loop: the first match is then not the highest common version", nil)
 	} else {
@@ -373,7 +402,7 @@ func ruleVersionNegotiation(c *Ctx) {
 			}
 		}
 		if okSorted {
-			c.R.Hold("R-NEG", p.Pos(sortN.Ast), f.Name, "served versions sorted descending", "sort.Sort(sort.Reverse(sort.IntSlice(list))) dominates the loop head and the list is not modified in between", true)
+			c.R.Hold("R-NEG", p.Pos(sortN.Ast), f.Name, "served versions sorted descending", "a descending sort of the list dominates the loop head and the list is not modified in between", true)
 		} else {
 			c.R.Violate("R-NEG", p.Pos(sortN.Ast), f.Name, "served versions sorted descending", "the served-version list can be modified (or the sort skipped) between the descending sort and the first-match loop", nil)
 		}
@@ -1158,4 +1187,51 @@ func ruleLogLevels(c *Ctx) {
 	} else {
 		c.R.Violate("R-TABLE/levels", p.Pos(f.Node()), f.Name, "JSON record carries message and key/value fields", "an hclog JSON line is not re-emitted with its message and key/value fields", nil)
 	}
+}
+
+// descendingComparator: func(i, j int) bool { return list[i] > list[j] } (sort.Slice)
+// or func(a, b int) int { return b - a } / cmp.Compare(b, a) (slices.SortFunc).
+func descendingComparator(info *types.Info, fl *ast.FuncLit, list *types.Var, sorter string) bool {
+	if len(fl.Body.List) != 1 || fl.Type.Params == nil {
+		return false
+	}
+	rs, ok := fl.Body.List[0].(*ast.ReturnStmt)
+	if !ok || len(rs.Results) != 1 {
+		return false
+	}
+	var params []types.Object
+	for _, fd := range fl.Type.Params.List {
+		for _, nm := range fd.Names {
+			params = append(params, info.Defs[nm])
+		}
+	}
+	if len(params) != 2 {
+		return false
+	}
+	r := ast.Unparen(rs.Results[0])
+	if strings.HasPrefix(sorter, "sort.") {
+		be, ok := r.(*ast.BinaryExpr)
+		if !ok {
+			return false
+		}
+		idx := func(e ast.Expr) types.Object {
+			ix, ok := ast.Unparen(e).(*ast.IndexExpr)
+			if !ok || identObj(info, ix.X) != list {
+				return nil
+			}
+			return identObj(info, ix.Index)
+		}
+		a, b := idx(be.X), idx(be.Y)
+		return (be.Op == token.GTR && a == params[0] && b == params[1]) || (be.Op == token.LSS && a == params[1] && b == params[0])
+	}
+	// slices.SortFunc: b - a or cmp.Compare(b, a)
+	if be, ok := r.(*ast.BinaryExpr); ok && be.Op == token.SUB {
+		return identObj(info, be.X) == params[1] && identObj(info, be.Y) == params[0]
+	}
+	if call, ok := r.(*ast.CallExpr); ok && len(call.Args) == 2 {
+		if se, ok := call.Fun.(*ast.SelectorExpr); ok && se.Sel.Name == "Compare" {
+			return identObj(info, call.Args[0]) == params[1] && identObj(info, call.Args[1]) == params[0]
+		}
+	}
+	return false
 }
